@@ -1,7 +1,7 @@
 //! C05 / C04 correspondence harness: drives the real `minidump_unwind::walk_stack`.
 //! Case line (all numbers decimal; see ocaml/c05/main.ml for the same description):
 //!   arch os ip sp fp lr ngp gp_1..gp_ngp valid base hexbytes nmods (mbase msize sym)*nmods
-//! Answer: frames joined by '|', each  instr,resume,sp,fp,lr,trust,valid,gp+gp..,module
+//! Answer: frames joined by '|', each  instr,resume,sp,fp,lr,trust,valid,gp+gp..,module[,function with --functions]
 use minidump::format::*;
 use minidump::system_info::{Cpu, Os};
 use minidump::*;
@@ -314,7 +314,7 @@ fn run(line: &str) -> String {
         } else {
             fgp.iter().map(|x| x.to_string()).collect::<Vec<_>>().join("+")
         };
-        out.push(format!(
+        let mut one = format!(
             "{},{},{},{},{},{},{},{},{}",
             f.instruction,
             f.resume_address,
@@ -325,9 +325,34 @@ fn run(line: &str) -> String {
             valid,
             gps,
             module
-        ));
+        );
+        if observe_functions() {
+            // 10th field (only with --functions): what fill_symbol left in the frame: `<function_base>:<function_name>`,
+            // `?:<name>` / `<base>:?` when only one of the two is set, `-` when neither is
+            let clean = |n: &str| -> String {
+                n.chars().map(|c| if c == ',' || c == '|' || c == ':' || c.is_whitespace() { '_' } else { c }).collect()
+            };
+            let func = match (&f.function_base, &f.function_name) {
+                (None, None) => "-".to_string(),
+                (b, n) => format!(
+                    "{}:{}",
+                    b.map(|x| x.to_string()).unwrap_or_else(|| "?".to_string()),
+                    n.as_ref().map(|x| clean(x)).unwrap_or_else(|| "?".to_string())
+                ),
+            };
+            one.push(',');
+            one.push_str(&func);
+        }
+        out.push(one);
     }
     out.join("|")
+}
+
+/// `c05 --functions`: also report each frame's function (C05's own runs; C04 shares this binary without the flag)
+fn observe_functions() -> bool {
+    use std::sync::OnceLock;
+    static F: OnceLock<bool> = OnceLock::new();
+    *F.get_or_init(|| std::env::args().any(|a| a == "--functions"))
 }
 
 fn main() {
